@@ -70,6 +70,7 @@ struct GenOptions {
   bool data = true;
   bool named_labels = true;
   bool comments = true;
+  uint32_t extra_labels = 0;  // labels created up front in addition to the usual 1..4 (large label tables outgrow the arena's reusable slots)
 };
 
 Program generate_program(sim::Rng& r, Target target, const GenOptions& opt);
